@@ -1297,6 +1297,9 @@ class ContactHandler(Messenger, dbus.service.Object):
                 val = dbus.UInt64(val)
             elif isinstance(val, ipaddress._BaseAddress):
                 val = str(val)
+            elif isinstance(val, str):
+                # A NUL (from the peer's node ID) cannot be in a DBus string
+                val = val.replace('\x00', '\ufffd')
             params[key] = val
         return dbus.Dictionary(params)
 
